@@ -290,13 +290,6 @@ end CV.Gen
 
 namespace CV.Interleave
 
-/-- locations of a process that runs several loads: package-level variables of the library (shared, owned by no load) and
-    everything else (`priv`: load-local values, the caller's own data) -/
-inductive PLoc (L : Type) where
-  | global (pkg var : String)
-  | priv (l : L)
-deriving DecidableEq
-
 /-- **from the static facts to `WritesOwn`** — the step that was "by convention" made explicit.  Let `foot t` be a set of
     locations that over-approximates what load `t` may write (`frame`: a step changes nothing outside it).  If
     (`globalFoot`) a package-level variable is in a load's footprint only when the regenerated table lists a write to it
